@@ -60,6 +60,10 @@ type World struct {
 	frozen       bool // the final snapshot has been taken; later completions are the harness's teardown
 	freeSetup    bool
 	parked       []*parkedYield
+	soft         []chan struct{} // goroutines held at sleep-type yields, oldest first
+	rootGID      int64
+	holdParks    bool // parked goroutines are released only by explicit "unpark" operations
+	yieldFn      func(string)
 	released     bool
 	capLifted    bool
 	mutexBlocked int
@@ -96,6 +100,9 @@ type tunnelState struct {
 	expireAt time.Time
 	server  *revServer
 	inner   bool
+
+	openCbEnd bool // the OnReverseTunnelOpen callback returned
+	closeTrig bool // registry histories: a close of this tunnel has been started
 }
 
 type rpcState struct {
@@ -230,6 +237,7 @@ func (w *World) run() {
 			w.serverSeqBase = si.Seq
 		}
 	}
+	w.rootGID = curGID()
 	w.installYields()
 	w.setPhase("setup")
 	if !w.setup() {
@@ -318,13 +326,39 @@ func (w *World) settle() {
 		} else {
 			synctest.Wait()
 		}
-		if w.sleepers.Load() == 0 || i > 1000 {
+		if !w.releaseSoftSleeper() || i > 1000 {
 			break
 		}
-		time.Sleep(time.Nanosecond)
 	}
 	Progress.Add(1)
 	w.observeTunnels()
+}
+
+// releaseSoftSleeper lets the longest-waiting sleep-type yield continue.
+func (w *World) releaseSoftSleeper() bool {
+	w.mu.Lock()
+	defer w.mu.Unlock()
+	if len(w.soft) == 0 {
+		return false
+	}
+	close(w.soft[0])
+	w.soft = w.soft[1:]
+	return true
+}
+
+// curGID returns the calling goroutine's id.
+func curGID() int64 {
+	var buf [64]byte
+	n := runtime.Stack(buf[:], false)
+	// "goroutine 123 ["
+	var id int64
+	for _, c := range buf[len("goroutine "):n] {
+		if c < '0' || c > '9' {
+			break
+		}
+		id = id*10 + int64(c-'0')
+	}
+	return id
 }
 
 func (w *World) polling() bool {
@@ -533,7 +567,7 @@ func (w *World) installYields() {
 			parkArmed = true
 		}
 	}
-	grpctunnel.VerifSetYieldHook(func(point string) {
+	w.yieldFn = func(point string) {
 		ys := armed[point]
 		if ys == nil {
 			return
@@ -588,14 +622,39 @@ func (w *World) installYields() {
 			}
 			return
 		}
-		if hit.Kind == "sleep" && sleepSafe[point] && w.c.Cfg.Cap == 0 && w.c.Cfg.Dir != "nested" && w.c.Cfg.Dir != "nestedrev" && !parkArmed {
+		if hit.Kind == "sleep" && sleepSafe[point] && curGID() != w.rootGID {
+			// delay this goroutine until everything else is quiescent: settle releases
+			// soft sleepers one at a time. (Not time.Sleep: the bubble's clock cannot move
+			// while any goroutine waits for a mutex the sleeper may hold.)
+			ch := make(chan struct{})
+			w.mu.Lock()
+			w.soft = append(w.soft, ch)
+			w.mu.Unlock()
 			w.sleepers.Add(1)
-			time.Sleep(time.Nanosecond)
+			// the timer covers the root being blocked inside a library call (set-up,
+			// synchronous events) rather than in settle
+			tm := time.NewTimer(time.Nanosecond)
+			select {
+			case <-ch:
+			case <-tm.C:
+			case <-w.quit:
+			}
+			tm.Stop()
 			w.sleepers.Add(-1)
 			return
 		}
 		runtime.Gosched()
-	})
+	}
+	_ = parkArmed
+	grpctunnel.VerifSetYieldHook(w.yieldFn)
+}
+
+// cbYield is a yield point inside one of the harness's own (application-side)
+// callbacks: application code may take arbitrarily long there.
+func (w *World) cbYield(point string) {
+	if f := w.yieldFn; f != nil {
+		f(point)
+	}
 }
 
 // ---------------------------------------------------------------------------
@@ -616,35 +675,48 @@ func (w *World) setup() bool {
 	w.hopts = grpctunnel.TunnelServiceHandlerOptions{
 		DisableFlowControl: cfg.ServerFC == "off",
 		OnReverseTunnelOpen: func(ch grpctunnel.TunnelChannel) {
-			w.mu.Lock()
-			defer w.mu.Unlock()
 			ti := tunnelIndexOf(ch)
-			w.revChans = append(w.revChans, revChan{ch: ch, tunnel: ti})
-			if ti >= 0 && ti < len(w.tunnels) {
-				t := w.tunnels[ti]
-				t.ch = ch
-				t.rec.Callbacks = append(t.rec.Callbacks, fmt.Sprintf("open@%d", w.step))
-			} else {
-				w.tr.Notes = append(w.tr.Notes, fmt.Sprintf("open callback for unknown tunnel %d", ti))
+			var t *tunnelState
+			func() {
+				w.mu.Lock()
+				defer w.mu.Unlock()
+				w.revChans = append(w.revChans, revChan{ch: ch, tunnel: ti})
+				if ti >= 0 && ti < len(w.tunnels) {
+					t = w.tunnels[ti]
+					t.ch = ch
+					t.rec.Callbacks = append(t.rec.Callbacks, fmt.Sprintf("open@%d", w.step))
+				} else {
+					w.tr.Notes = append(w.tr.Notes, fmt.Sprintf("open callback for unknown tunnel %d", ti))
+				}
+			}()
+			w.cbYield("cb.open")
+			if t != nil {
+				w.mu.Lock()
+				t.openCbEnd = true
+				w.mu.Unlock()
 			}
 		},
 		OnReverseTunnelClose: func(ch grpctunnel.TunnelChannel) {
-			w.mu.Lock()
-			defer w.mu.Unlock()
-			ti := tunnelIndexOf(ch)
-			for i := range w.revChans {
-				if w.revChans[i].ch == ch {
-					w.revChans[i].closed = true
+			func() {
+				w.mu.Lock()
+				defer w.mu.Unlock()
+				ti := tunnelIndexOf(ch)
+				for i := range w.revChans {
+					if w.revChans[i].ch == ch {
+						w.revChans[i].closed = true
+					}
 				}
-			}
-			if ti >= 0 && ti < len(w.tunnels) {
-				t := w.tunnels[ti]
-				t.rec.Callbacks = append(t.rec.Callbacks, fmt.Sprintf("close@%d", w.step))
-			}
+				if ti >= 0 && ti < len(w.tunnels) {
+					t := w.tunnels[ti]
+					t.rec.Callbacks = append(t.rec.Callbacks, fmt.Sprintf("close@%d", w.step))
+				}
+			}()
+			w.cbYield("cb.close")
 		},
 	}
 	if cfg.HasKeyFn {
 		w.hopts.AffinityKey = func(ch grpctunnel.TunnelChannel) any {
+			w.cbYield("cb.affinity")
 			md, _ := metadata.FromIncomingContext(ch.Context())
 			if v := md.Get("x-verif-key"); len(v) > 0 {
 				return v[0]
@@ -793,6 +865,12 @@ func (w *World) openTunnel(spec TunnelSpec, fatal bool) bool {
 		w.mu.Unlock()
 		go w.serveLoop(t)
 		w.settle()
+		if cs := t.conn.Created(); len(cs) > 0 && t.server.conn == t.conn {
+			w.mu.Lock()
+			t.carrier = cs[len(cs)-1]
+			t.rec.Carrier = t.carrier.Idx
+			w.mu.Unlock()
+		}
 		w.mu.Lock()
 		opened := t.ch != nil
 		w.mu.Unlock()
@@ -1088,6 +1166,32 @@ func (w *World) snapshot(phase string) *Snapshot {
 			default:
 			}
 		}
+	}
+	if w.handler != nil && (w.c.Cfg.Dir == "rev" || w.c.Cfg.Dir == "nestedrev") {
+		// the per-key level of the registry, seen through KeyAsChannel(k).Ready()
+		keys := map[string]bool{"a": true, "b": true, "c": true}
+		for _, ts := range w.c.Cfg.Tunnels {
+			if ts.Key != "" {
+				keys[ts.Key] = true
+			}
+		}
+		for _, op := range w.c.Reg {
+			if op.Key != "" {
+				keys[op.Key] = true
+			}
+		}
+		func() {
+			defer func() { _ = recover() }()
+			if w.handler.KeyAsChannel(nil).Ready() {
+				sn.KeyReady = append(sn.KeyReady, "<nil>")
+			}
+			for k := range keys {
+				if w.handler.KeyAsChannel(k).Ready() {
+					sn.KeyReady = append(sn.KeyReady, k)
+				}
+			}
+			sort.Strings(sn.KeyReady)
+		}()
 	}
 	for _, s := range w.net.Streams() {
 		sn.InFlight += s.Pending(C2S) + s.Pending(S2C)
@@ -2199,6 +2303,9 @@ func (w *World) enabledActions() (acts []action, forced *action) {
 	}
 	w.mu.Lock()
 	for _, p := range w.parked {
+		if w.holdParks {
+			break
+		}
 		acts = append(acts, action{kind: "unpark", park: p})
 	}
 	groups := map[int]bool{}
@@ -2620,10 +2727,9 @@ func (w *World) finish() {
 	}
 	for i := 0; i < 50; i++ {
 		synctest.Wait()
-		if w.sleepers.Load() == 0 {
+		if !w.releaseSoftSleeper() {
 			break
 		}
-		time.Sleep(time.Nanosecond)
 	}
 	time.Sleep(time.Second)
 	synctest.Wait()
